@@ -828,6 +828,8 @@ func rulePrecheckSameRows(c *Ctx, rule string) {
 		switch {
 		case match == nil:
 			c.FailConfined(rule, key, u.call.Pos(), "the insert path stores rows built by %s, the validation before the first catalog insert never builds one: a row that is refused is refused after the table has been registered", u.ctor.Decl.Name.Name)
+		case u.perField && !(match.perField && match.uncond) && outermostLit(match.fn, match.call) != nil:
+			c.Undecided(rule, key, "%s is called from a function literal in %s (handed to a helper such as a generic map over the columns): whether it runs once for every column is not decided", u.ctor.Decl.Name.Name, match.fn.Name)
 		case u.perField && !(match.perField && match.uncond):
 			c.FailConfined(rule, key, match.call.Pos(), "the insert path stores one %s row per column, the pre-check does not build one for every column (no unconditional range over the Fields around the call in %s): a column whose row is refused for a reason of its own passes the pre-check and fails after the table has been registered", u.ctor.Decl.Name.Name, match.fn.Name)
 		default:
